@@ -10,6 +10,9 @@
 //!   ta                   trust-anchor conditions
 //!   depth3               TA -> CA -> CA -> EE: the result stays inside every ancestor
 //!   tamper.bitflip       every single-bit flip of one valid certificate per kind
+//!   object.history       ONE decoded Cert object (and its clones) validated repeatedly by
+//!                        calls differing in issuer / instant / strictness / route; every
+//!                        answer equals the answer a freshly decoded twin gives
 
 use std::collections::BTreeMap;
 use rayon::prelude::*;
